@@ -246,7 +246,7 @@ fn stage(p: &Profile, sh: &Shadow, rng: &mut Rng, pos: usize, len: usize) -> Sta
 fn consumer_spec(p: &Profile, sh: &Shadow, rng: &mut Rng) -> ConsumerSpec {
     let len = if p.chain == ChainSel::None { 0 } else { rng.range(p.chain_len.0, p.chain_len.1) };
     let chain: Vec<StageSpec> = (0..len).map(|i| stage(p, sh, rng, i, len)).collect();
-    ConsumerSpec { batched: rng.chance(p.p_batched.0, p.p_batched.1), chain, twin: rng.chance(p.p_twin.0, p.p_twin.1) }
+    ConsumerSpec { batched: rng.chance(p.p_batched.0, p.p_batched.1), chain, twin: rng.chance(p.p_twin.0, p.p_twin.1), same_waker: rng.chance(1, 3) }
 }
 
 fn n_sources(spec: &ConsumerSpec) -> usize {
